@@ -1,12 +1,23 @@
 #!/usr/bin/env python3
 """Prints the markdown table of seeded changes (DESIGN.md 10.5) from seeded/*/meta.json."""
-import glob, json, os
-print('| seed | property | files changed | repo tests with the change | demonstration (with / without) | detected by (quick tier) | first report |')
-print('|---|---|---|---|---|---|---|')
+import glob, json, os, re
+print('| seed | property | change (file) | detected by (quick tier) | first report | history |')
+print('|---|---|---|---|---|---|')
+n = miss = first_miss = 0
 for f in sorted(glob.glob('/verif/seeded/*/meta.json')):
     m = json.load(open(f))
+    n += 1
     det = ', '.join(m.get('detected_by') or []) or '**missed**'
+    if not m.get('detected_by'):
+        miss += 1
     first = ''
     for c in m.get('detected_by') or []:
-        first = m['checks'][c]['first'][:110].replace('|', '\\|'); break
-    print('| %s | %s | %s | %s | exit %s / exit %s | %s | %s |' % (m['seed'], m['property'], ', '.join(os.path.basename(x) for x in m['files_changed']), m['tests_with_change'].split(',')[0], m['demo_with_change']['exit'], m['demo_without_change']['exit'], det, first))
+        first = m['checks'][c]['first'][:100].replace('|', '\\|'); break
+    hist = (m.get('history') or '').replace('|', '\\|')
+    if re.search(r'First run: .*?(missed|did not detect)|^Evaluated after strengthening|it was missed|first pass: missed', hist):
+        first_miss += 1
+    assert m['tests_with_change'].startswith('131 passed'), f
+    assert m['demo_with_change']['exit'] == 1 and m['demo_without_change']['exit'] == 0, f
+    print('| %s | %s | %s | %s | %s | %s |' % (m['seed'], m['property'], ', '.join(os.path.basename(x) for x in m['files_changed']), det, first, hist))
+print()
+print('%d seeded changes (each: repository tests 131 passed with the change, demonstration exit 1 with / exit 0 without it); %d not detected by any quick check now; %d were missed by the first evaluation and led to a strengthened check.' % (n, miss, first_miss))
